@@ -41,7 +41,8 @@ CONSTANTS P,         \* root length
           Offsets,   \* annotation offsets of the root
           MaxSpans,  \* 1 or 2 spans per feature
           MaxCopy,   \* views behind more than MaxCopy derived objects (copy, feature slice, degap) are produced (and judged) but not explored further
-          Filters    \* subset of {"none", "bio", "name"}: biotype / name restriction of the queries
+          Filters,   \* subset of {"none", "bio", "name"}: biotype / name restriction of the queries
+          MinSpans   \* features of at least so many spans (1 everywhere but in the span-order configuration)
 
 VARIABLES off,       \* annotation offset of the root
           fa,        \* spans of feature a: <<<<s, e>>, ...>> in root coordinates, ordered, disjoint
@@ -65,8 +66,27 @@ Compl == [A |-> "T", C |-> "G", G |-> "C", T |-> "A", R |-> "Y", Y |-> "R",
 
 Pairs == {p \in (0..P) \X (0..P) : p[1] < p[2]}
 Quads == {q \in (0..P) \X (0..P) \X (0..P) \X (0..P) : q[1] < q[2] /\ q[2] <= q[3] /\ q[3] < q[4]}
+Sixes == {q \in (0..P) \X (0..P) \X (0..P) \X (0..P) \X (0..P) \X (0..P) :
+             q[1] < q[2] /\ q[2] <= q[3] /\ q[3] < q[4] /\ q[4] <= q[5] /\ q[5] < q[6]}
 SpanLists == {<<p>> : p \in Pairs}
              \cup (IF MaxSpans >= 2 THEN {<< <<q[1], q[2]>>, <<q[3], q[4]>> >> : q \in Quads} ELSE {})
+             \cup (IF MaxSpans >= 3 THEN {<< <<q[1], q[2]>>, <<q[3], q[4]>>, <<q[5], q[6]>> >> : q \in Sixes} ELSE {})
+
+(* add_feature(spans=...) takes the spans as a SEQUENCE in any order (e.g. the   *)
+(* exons of a minus-strand gene in transcription order) and each span with its   *)
+(* two ends in either order; "this will be sorted": the record is the ascending  *)
+(* list, so what a feature denotes does not depend on the order supplied.        *)
+(* Orders(sp) lists every way of supplying sp; Normalise is what is recorded.     *)
+(* seq.add_feature may refuse an order (it raises); a refused call is a           *)
+(* stuttering step: no later query may show the record.                           *)
+Perms(n) == {f \in [1..n -> 1..n] : \A i \in 1..n, j \in 1..n : i # j => f[i] # f[j]}
+Orders(sp) == {[i \in 1..Len(sp) |-> sp[f[i]]] : f \in Perms(Len(sp))}
+                \cup {[i \in 1..Len(sp) |-> <<sp[f[i]][2], sp[f[i]][1]>>] : f \in Perms(Len(sp))}
+Lo(pr) == IF pr[1] < pr[2] THEN pr[1] ELSE pr[2]
+Hi(pr) == IF pr[1] < pr[2] THEN pr[2] ELSE pr[1]
+Normalise(q) ==
+    LET rank(i) == Cardinality({j \in 1..Len(q) : Lo(q[j]) < Lo(q[i])}) + 1
+    IN [r \in 1..Len(q) |-> LET i == CHOOSE i \in 1..Len(q) : rank(i) = r IN <<Lo(q[i]), Hi(q[i])>>]
 
 Mirror(sp) == [k \in 1..Len(sp) |-> <<P - sp[Len(sp) + 1 - k][2], P - sp[Len(sp) + 1 - k][1]>>]
 
@@ -186,7 +206,7 @@ Universe == UNCHANGED <<off, fa>>
 IsRoot == idx = Ident(P) /\ ~comp /\ blo = 0 /\ bhi = P /\ hasdb /\ ncopy = 0
 
 Init == /\ off \in Offsets
-        /\ fa \in SpanLists
+        /\ fa \in {sp \in SpanLists : Len(sp) >= MinSpans}
         /\ idx = Ident(P) /\ comp = FALSE
         /\ blo = 0 /\ bhi = P
         /\ hasdb = TRUE
@@ -279,7 +299,8 @@ OnSlice ==
 Meta == /\ IsRoot
         /\ UNCHANGED vars
         /\ Emit([act |-> "Universe", from |-> St, P |-> P, off |-> off, feats |-> Feats, compl |-> Compl,
-                 onslice |-> OnSlice])
+                 onslice |-> OnSlice,
+                 orders |-> <<Orders(Feats[1].spans) \ {Feats[1].spans}, Orders(Feats[2].spans) \ {Feats[2].spans}>>])
 
 Next == \/ \E a \in 0..P, b \in 0..P : Slice(a, b)
         \/ Rc
@@ -293,6 +314,8 @@ Next == \/ \E a \in 0..P, b \in 0..P : Slice(a, b)
 Spec == Init /\ [][Next]_vars
 
 CopyBound == ncopy <= MaxCopy
+(* the span-order configuration only needs the root and the views one slice / rc away *)
+OrderStage == ncopy = 0 /\ hasdb /\ (Len(idx) = P \/ comp = FALSE)
 
 ------------------------------------------------------------------------------
 (* Design-level properties checked on the model itself.                        *)
@@ -335,6 +358,9 @@ InsideIsComplete ==
     \A k \in 1..2 :
         Status(idx, hasdb, Feats[k], 0, Len(idx), FALSE, "none") = "in"
             => Len(PosOn(idx, Feats[k].spans)) = Len(Denotes(Feats[k].spans))
+
+(* whatever order the spans are supplied in, the same record is made *)
+OrderIrrelevant == \A k \in 1..2 : \A q \in Orders(Feats[k].spans) : Normalise(q) = Feats[k].spans
 
 (* laws of the feature algebra on any view *)
 AlgebraLaws ==
